@@ -89,6 +89,7 @@ type State struct {
 	srcAdr map[string]bool
 	envs   []map[ssa.Value]Value
 	defers map[int][]*deferredCall // by env depth
+	cnt    map[string]int          // anchor counters of this path (stores, definitions, calls seen so far)
 }
 
 type deferredCall struct {
@@ -111,6 +112,12 @@ func (s *State) clone() *State {
 	}
 	for k, v := range s.srcAdr {
 		n.srcAdr[k] = v
+	}
+	if len(s.cnt) > 0 {
+		n.cnt = make(map[string]int, len(s.cnt))
+		for k, v := range s.cnt {
+			n.cnt[k] = v
+		}
 	}
 	if len(s.defers) > 0 {
 		n.defers = map[int][]*deferredCall{}
